@@ -862,6 +862,9 @@ class Interp:
             return ListV([]) if not args else U(self.src(e))
         if fsrc == "any" or fsrc == "all":
             return U(self.src(e), "bool")
+        if fsrc == "bool" and len(args) == 1 and not e.keywords:
+            # a flag computed from a condition: the same decision as testing the operand
+            return K(self.truth(args[0], self.src(e.args[0])))
         if fsrc in ("t.cast", "typing.cast") and len(args) == 2:
             return args[1]
         if fsrc == "getattr" and len(args) >= 2 and isinstance(args[1], K):
